@@ -1236,3 +1236,29 @@ Definition results_supported (r : results) : bool :=
   str_ends_with "Results" (r_class r)
   && forallb (fun nf => negb (reserved_key (fst nf)) && field_supported (snd nf)) (r_fields r).
 End ResultsJson.
+
+(* ------------------------------------------------------------------------------------------ *)
+(* The generic model code, end to end  (model/external/generic/generic.py, Model.code,          *)
+(* modeling.read_model_from_string)                                                             *)
+(* ------------------------------------------------------------------------------------------ *)
+Section Generic.
+Variable G : engine.
+Variable dumps : pyv -> string.            (* json.dumps *)
+Variable loads : string -> option pyv.     (* json.loads *)
+
+(* convert_model(model, 'generic'): a new Model from the listed attributes -- value_type is not
+   among them and falls back to the constructor default *)
+Definition generic_convert (m : model G) : model G :=
+  mkModel G (m_name G m) (m_description G m) (m_parameters G m) (m_rvs G m) (m_statements G m) (m_steps G m)
+          (m_datainfo G m) "PREDICTION" (m_depvars G m) (m_obstrans G m) (m_iie G m).
+(* Model.code: d = to_dict(); d['__magic__'] = ...; d['__version__'] = ...; json.dumps(d) *)
+Definition magic_items (version : string) : list (pkey * pyv) :=
+  [(KStr "__magic__", PStr "Pharmpy Model"); (KStr "__version__", PStr version)].
+Definition generic_code_dict (version : string) (m : model G) : pyv :=
+  match model_to_dict G m with PDict d => PDict (d ++ magic_items version) | v => v end.
+Definition generic_code (version : string) (m : model G) : string := dumps (generic_code_dict version m).
+(* parse_model: Model.from_dict(json.loads(code)) *)
+Definition generic_parse (code : string) : option (model G) := v <- loads code ;; model_from_dict G v.
+Definition generic_roundtrip (version : string) (m : model G) : option (model G) :=
+  generic_parse (generic_code version (generic_convert m)).
+End Generic.
